@@ -116,6 +116,7 @@ func (e *ErrFormat) Error() string { return "file differs from the reference enc
 // secret to a distinct part of the tape and rebuilds the file from those
 // values. parties are the recipients in the order given to Encrypt.
 func Explain(file []byte, parties []*keys.Party, plaintext []byte, draws []mon.Draw, scryptLogN int) (*Explained, error) {
+	parties = keys.Flatten(parties) // group recipients: one stanza run per member
 	var refs []refage.Key
 	for _, p := range parties {
 		if p.Ref != nil {
